@@ -9,6 +9,9 @@ A Stage has a name, a kind:
     'hyp'  : strategy() -> hypothesis strategy of JSON-able cases; n = number of examples (split over shards)
     'enum' : enumerate(shard, nshards) -> iterator of cases (finite domain, partitioned)
     'list' : cases() -> list of cases (split over shards round-robin)
+    'hypfuzz' : like 'hyp', but the strategy is driven by libFuzzer through atheris
+             (`test.hypothesis.fuzz_one_input`): coverage-guided search over the same generator and oracle; the
+             repository modules are imported under atheris instrumentation (coverage feedback from /repo only)
 and evaluate(case, ctx) which records verdicts on ctx and never raises for a property violation.
 """
 import hashlib
@@ -64,7 +67,7 @@ def case_hash(obj):
 
 class Stage:
     def __init__(self, name, kind, evaluate, n=0, strategy=None, enumerate=None, cases=None, exhaustive=False,
-                 shards=None, vary_hashseed=False, run=None):
+                 shards=None, vary_hashseed=False, run=None, max_len=4096):
         self.name = name
         self.kind = kind
         self.evaluate = evaluate
@@ -74,6 +77,7 @@ class Stage:
         self.cases = cases
         self.exhaustive = exhaustive
         self.shards = shards
+        self.max_len = max_len      # kind 'hypfuzz': libFuzzer -max_len
         self.run = run      # kind 'func': run(shard, nshards, seed, n, ctx) drives its own search (e.g. a state machine)
         # when set, every shard worker (and the IsoQuant children it forks) runs under its own PYTHONHASHSEED
         self.vary_hashseed = vary_hashseed
@@ -170,6 +174,40 @@ def _run_stage_in_worker(mod, stage, shard, nshards, seed, ctx):
             if i % nshards == shard:
                 ctx.evaluations += 1
                 stage.evaluate(case, ctx)
+    elif stage.kind == "hypfuzz":
+        import atheris
+        from hypothesis import given, settings, HealthCheck
+        n = stage.n // nshards + (1 if shard < stage.n % nshards else 0)
+        if n <= 0:
+            return
+        strat = stage.strategy()
+
+        @settings(database=None, deadline=None, suppress_health_check=list(HealthCheck))
+        @given(strat)
+        def body(case):
+            ctx.evaluations += 1
+            with time_limit(30):
+                stage.evaluate(case, ctx)
+        fuzz_one = body.hypothesis.fuzz_one_input
+        state = {"calls": 0}
+
+        def one(data):
+            state["calls"] += 1
+            try:
+                fuzz_one(data)
+            except CaseTimeout:
+                ctx.note("case_timeout")
+            if ctx.evaluations >= n or state["calls"] >= 50 * n:
+                ctx.note("fuzzer_calls", state["calls"])
+                ctx.finish("ok")          # libFuzzer never returns control: the worker result is written from here
+                sys.stdout.flush()
+                os._exit(0)
+        corpus = os.path.join(ctx.workdir, "corpus")
+        os.makedirs(corpus, exist_ok=True)
+        atheris.Setup([sys.argv[0], "-seed=%d" % (derive_seed(seed, mod.ID, stage.name, shard) % 2147483647 + 1),
+                       "-max_len=%d" % stage.max_len, "-runs=2000000000", "-rss_limit_mb=0", "-timeout=120",
+                       "-verbosity=0", "-print_final_stats=0", corpus], one)
+        atheris.Fuzz()
     elif stage.kind == "func":
         n = stage.n // nshards + (1 if shard < stage.n % nshards else 0)
         if n > 0:
@@ -251,25 +289,39 @@ def worker_main(argv):
     sys.path.insert(0, VERIF)
     workdir = tempfile.mkdtemp(prefix="iqverif-%s-%s-%d-" % (pid, stage_name, shard))
     ctx = Ctx(workdir)
+
+    def finish(status):
+        shutil.rmtree(workdir, ignore_errors=True)
+        res = ctx.dump()
+        res["status"] = status
+        with open(out + ".tmp", "w") as f:
+            json.dump(res, f, default=str)
+        os.replace(out + ".tmp", out)
+    ctx.finish = finish
     status = "ok"
     try:
-        mod = load_prop(pid)
-        stage = [s for s in mod.stages(tier) if s.name == stage_name][0]
-        _run_stage_in_worker(mod, stage, shard, nshards, seed, ctx)
+        if stage_name.startswith("fuzz"):
+            # coverage-guided stages: everything imported from the repository from here on is instrumented
+            import atheris
+            from . import run as _run
+            with atheris.instrument_imports(include=["src", "isoquant"], enable_loader_override=False):
+                _run.preload()
+                mod = load_prop(pid)
+                stage = [s for s in mod.stages(tier) if s.name == stage_name][0]
+                _run_stage_in_worker(mod, stage, shard, nshards, seed, ctx)
+        else:
+            mod = load_prop(pid)
+            stage = [s for s in mod.stages(tier) if s.name == stage_name][0]
+            _run_stage_in_worker(mod, stage, shard, nshards, seed, ctx)
     except BaseException:
         status = "error"
         ctx.harness_errors.append(traceback.format_exc())
-    finally:
-        shutil.rmtree(workdir, ignore_errors=True)
-    res = ctx.dump()
-    res["status"] = status
-    with open(out, "w") as f:
-        json.dump(res, f, default=str)
+    finish(status)
 
 
 def run_stage_sharded(pid, stage, seed, tier, nshards=None):
     nshards = stage.shards or nshards or NSHARDS
-    if stage.kind in ("hyp", "func"):
+    if stage.kind in ("hyp", "func", "hypfuzz"):
         nshards = max(1, min(nshards, stage.n))
     tmp = tempfile.mkdtemp(prefix="iqverif-par-")
     procs = []
